@@ -22,7 +22,7 @@ from vlib.front import unparse, dotted, const_value, AnchorMissing
 from vlib.shape import Shape, Space, Ix, Q, D, BoolT, StrT, NoneT, SizeOf, UNK, is_unk, Arr, Rec, Tup, ListT, DictT, B
 from obligations.shape_tables import (model_attrs, COMMON_SIGS, M, AR, Tmpl, Clu, Chan, Spike, KA, CNT)
 
-FLOOR = 19
+FLOOR = 15
 EXPLANATION = ('shape engine over the grouping utilities of phylib/io/array.py and the model queries built on them (key / value kinds, '
                'consistency of the permutation applied to ids and labels, table-vs-query index spaces, mean-vs-sum dimension), plus '
                'structural rules pairing keys with boundary ranges and requiring a stable sort')
@@ -99,7 +99,20 @@ def run(ctx):
                   'boundaries are not {0} + positions where the sorted labels increase: the first element is marked with %r, so the first group has no boundary at position 0' % (first,))
     keys = P.stmt('V_keys = %s[V_bnd]' % labels) if bnd is not None else None
     dcs = spc.nodes(ast.DictComp)
-    if not dcs or keys is None or ids_perm is None:
+    split_form = None
+    if not dcs and keys is not None and ids_perm is not None:
+        PS = Pat(spc, P.b)
+        ch_ = PS.stmt('V_chunks = np.split(V_vals, V_bnd[1:])')
+        if ch_ is not None and any(PS.m('dict(zip(V_keys, V_chunks))', x) for r_, x in returned(spc) for x in (r_.value, x)):
+            split_form = ch_
+        elif ch_ is None and (PS.stmt('V_chunks = np.split(V_vals, V_bnd)') or PS.stmt('V_chunks = np.split(V_vals, V_bnd[:-1])')):
+            split_form = False
+    if split_form:
+        ctx.holds('C07.A1', spc, 'the sorted values are cut at every boundary but the first (position 0) and the pieces are paired, in order, with the labels at the boundaries', split_form)
+        ctx.holds('C07.A1', spc, 'the last cluster gets the spikes from the last boundary to the end (last piece of the split)', split_form)
+    elif split_form is False:
+        ctx.violated('C07.A1', spc, 'np.split', 'the sorted values are not cut at boundaries 1.. of the boundary array: the pieces and the keys are shifted against each other')
+    elif not dcs or keys is None or ids_perm is None:
         ctx.undecided('C07.A1', spc, 'the dictionary comprehension pairing keys with group ranges was not recognised')
     else:
         dc = dcs[0]
